@@ -143,8 +143,8 @@ def directed_cases():
 
 def finish_shard(spec, ctx):
     kind = spec.get("kind")
-    if kind is None:
-        return
+    if kind is None or ctx.evaluations < spec.get("n", 0):
+        return          # replay of a single case (core.replay_main calls finish_shard too)
     seen = ctx.counters.get("cases_" + kind, 0)
     if seen < spec.get("floor", 0):
         raise RuntimeError(f"sub-monitor {kind} observed only {seen} distinct cases (< floor {spec['floor']})")
